@@ -529,7 +529,7 @@ def r11H(F, rid='11.H'):
 	return out
 
 RULES.append(('11.H', 'block_confirmed hands the OnchainTxHandler its own conf_height parameter as confirmation height and the best block height as current height (argument provenance by position)', r11H))
-RULES.append(('11.N', 'arithmetic census: per reviewed function the number of operations per (group: add/sub, mul, div, rem, shift, bit, min, max, div_ceil ...; flavour: plain / checked / saturating / wrapping) is unchanged - a dropped or added `+ 1`, a rounding direction, saturating for checked, min for max (rules/arith.py; value arithmetic itself is not decided)', lambda F: arith.for_property(F, 'C11', '11.N')))
+RULES.append(('11.N', 'arithmetic census: per reviewed function the set of operation kinds (group: add/sub, mul, div, rem, shift, bit, min, max, div_ceil ...; flavour: plain / checked / saturating / wrapping) keeps its kinds: no reviewed function lost or gained a kind of arithmetic altogether - a rounding direction (`/` for div_ceil), saturating for checked, min for max (rules/arith.py; counts and value arithmetic itself are not judged)', lambda F: arith.for_property(F, 'C11', '11.N')))
 
 def r11J(F):
 	"""an HTLC failed by a counterparty-commitment update that arrives after the funding spend already confirmed is anchored to the block of that
